@@ -12,7 +12,8 @@ C = O.CODES
 ID = 'C05'
 LEVEL = 'exploration'
 RULE = ('Hypothesis cases over internal seeds, committed scripts (recorder prefix + generated body), sigfield sets, '
-        'flag / allowed pairs and witness kinds: builder key-spend, builder script-spend + inner pre-witness, '
+        'flag / allowed pairs and witness kinds: builder key-spend, builder script-spend + inner pre-witness (plain items, or '
+        'definitions of functions 3 / 200 which the committed script calls), '
         'negative families (signature by the untweaked internal key / another key / over other sigfields / with a '
         'non-permitted flag / one bit flipped in signature or root; other script, other key, pair from another lock, '
         '32-byte non-point, empty script - all as pure-push witnesses) and adversarial witnesses of the C01 family for '
@@ -46,6 +47,13 @@ def lock_root(lock_bytes, kind):
 BODIES = [bytes([C['OP_TRUE']]), bytes([C['OP_FALSE']]), bytes([C['OP_VERIFY']]), bytes([C['OP_PUSH0'], 7, C['OP_EQUAL']]),
           bytes([C['OP_POP0'], C['OP_TRUE']]), bytes([C['OP_DEPTH'], C['OP_PUSH0'], 0, C['OP_EQUAL']])]
 PRES = [b'', bytes([C['OP_TRUE']]), bytes([C['OP_PUSH0'], 7])]
+# preludes chosen by the case key 'pre' (cases without it keep k1 % 3): the witness defines function 3 / 200 before the
+# committed script runs; the committed script sees the definitions exactly as a script following the prelude would
+PRES2 = PRES + [bytes([C['OP_DEF'], 3, 0, 1, C['OP_TRUE']]), bytes([C['OP_DEF'], 200, 0, 2, C['OP_PUSH0'], 7]),
+                bytes([C['OP_DEF'], 3, 0, 1, C['OP_TRUE'], C['OP_DEF'], 200, 0, 2, C['OP_PUSH0'], 7])]
+CALL_BODIES = [bytes([C['OP_CALL'], 3]), bytes([C['OP_CALL'], 200, C['OP_PUSH0'], 7, C['OP_EQUAL']]),
+               bytes([C['OP_CALL'], 200, C['OP_POP0'], C['OP_CALL'], 3]),
+               bytes([C['OP_TRUE'], C['OP_IF'], 0, 2, C['OP_CALL'], 3])]
 
 
 def auth(scripts, fields):
@@ -133,7 +141,7 @@ def check_taproot(case):
     fails = []
     seed, body, fields, flag, allowed = case['seed'], case['body'], case['fields'], case['flag'] & 0xff, case['allowed'] & 0xff
     kind, k1 = case['kind'], case.get('k1', 0)
-    if body not in BODIES and not monitors.within_budget([body], fields):
+    if body not in BODIES and body not in CALL_BODIES and not monitors.within_budget([body], fields):
         return fails, {'skip': True}          # a committed script whose work explodes (see monitors.BudgetMonitor)
     tag = b'\x77\x01'
     Sb = observed(tag, body)
@@ -189,7 +197,7 @@ def check_taproot(case):
             want = False
         elif kind == 'scriptspend':
             w = T.make_taproot_witness_scriptspend(pk, S).bytes
-            pre = PRES[k1 % 3]
+            pre = PRES2[case['pre'] % len(PRES2)] if 'pre' in case else PRES[k1 % 3]
             rec = Rec()
             want = F.run_auth_scripts([s for s in (pre, Sb) if s], dict(fields), {CID: rec})
             w = pre + w
@@ -348,7 +356,10 @@ def fields_st(draw):
 
 @st.composite
 def body_st(draw):
-    if draw(st.integers(0, 2)):
+    r = draw(st.integers(0, 5))
+    if r == 0:
+        return draw(st.sampled_from(CALL_BODIES))
+    if r < 4:
         return draw(st.sampled_from(BODIES))
     t = draw(script_tree(2, True))
     try:
@@ -364,7 +375,7 @@ def tap_case(draw):
     allowed = draw(st.one_of(st.just(flag), st.just(0xff), st.just(0), st.integers(0, 255)))
     return {'check': 'taproot', 'seed': draw(st.binary(min_size=32, max_size=32)), 'body': draw(body_st()),
             'fields': draw(fields_st()), 'flag': flag, 'allowed': allowed, 'kind': draw(st.sampled_from(KINDS)),
-            'k1': draw(st.integers(0, 4095)), 'graftap': draw(st.integers(0, 5)) == 0}
+            'k1': draw(st.integers(0, 4095)), 'graftap': draw(st.integers(0, 5)) == 0, 'pre': draw(st.integers(0, len(PRES2) - 1))}
 
 
 def task_main(ctx):
@@ -375,6 +386,8 @@ def task_main(ctx):
         nt = c['kind'] not in ('keyspend', 'scriptspend') or c['flag'] != 0
         ctx.case({k: v for k, v in c.items()}, nt)
         ctx.count('kind:' + c['kind'])
+        if c['kind'] == 'scriptspend' and c['body'] in CALL_BODIES:
+            ctx.count('scriptspend:committed script calls a function' + (' the witness defined' if c.get('pre', 0) % len(PRES2) >= 3 else ' nobody defined'))
         for s, d in fails:
             ctx.fail('taproot', s, c, d)
         if nt and len(c['body']) < 30:
@@ -421,4 +434,6 @@ def guards(tier, c, evaluations, nnt):
     msgs = []
     if sum(v for k, v in c.items() if k.startswith('equiv:') and k.endswith(':True')) < 30:
         msgs.append('fewer than 30 adversarial witnesses authorise in the native/non-native comparison')
+    if c.get('scriptspend:committed script calls a function the witness defined', 0) < 5:
+        msgs.append('fewer than 5 script spends whose committed script calls a function defined by the witness')
     return msgs
